@@ -7,6 +7,7 @@ import (
 
 	"github.com/advancedclimatesystems/gonnx/internal/zzverif"
 	"github.com/advancedclimatesystems/gonnx/onnx"
+	"github.com/advancedclimatesystems/gonnx/ops"
 	"gorgonia.org/tensor"
 )
 
@@ -192,6 +193,7 @@ func H_C16(v *zzverif.T) {
 	single := make([][][]float32, len(outputs)) // [output][sample]
 	singleB := make([][][]bool, len(outputs))   // bool outputs
 	singleShape := make([][]int, len(outputs))
+	asView := false
 	mkIn := func(i int, rows []int) tensor.Tensor {
 		if dataI[i] != nil {
 			ordered := make([][]int32, len(rows))
@@ -204,6 +206,22 @@ func H_C16(v *zzverif.T) {
 		ordered := make([][]float32, len(rows))
 		for k, s := range rows {
 			ordered[k] = data[i][s]
+		}
+		if asView {
+			// the caller hands over a sub-selection of a larger batch as a VIEW (no copy): one foreign sample
+			// before and one behind the selected ones stay in the parent's storage
+			per := zzverif.Prod(shapes[i]) / shapes[i][axes[i]]
+			junk := func(tag string) []float32 { return zzverif.Syms[float32](v, names[i]+"_"+tag, per) }
+			withJunk := append(append([][]float32{junk("before")}, ordered...), junk("behind"))
+			d, full := zzStackG(withJunk, shapes[i], axes[i])
+			parent := zzverif.NewTensor(d, full)
+			sl := make([]tensor.Slice, axes[i]+1)
+			sl[axes[i]] = ops.NewSlicer(1, 1+len(rows))
+			w, serr := parent.Slice(sl...)
+			if serr != nil {
+				panic(serr)
+			}
+			return w
 		}
 		d, full := zzStackG(ordered, shapes[i], axes[i])
 		return zzverif.NewTensor(d, full)
@@ -232,8 +250,12 @@ func H_C16(v *zzverif.T) {
 		}
 	}
 	// the batch, in the given order and reversed
-	for _, order := range []string{"forward", "reversed"} {
+	for _, order := range []string{"forward", "reversed", "as-a-view"} {
 		if order == "reversed" && n == 1 {
+			continue
+		}
+		asView = order == "as-a-view"
+		if asView && !(v.Has("views") && v.CBool("views")) {
 			continue
 		}
 		perm := make([]int, n)
